@@ -27,8 +27,11 @@ SumLens(m, i) == IF i > Len(m) THEN 0 ELSE Len(m[i][2]) + SumLens(m, i + 1)
 Owners(a) == SetOf(a.data) \cup SetOf(a.sys) \cup UnionOf(a.dfreed) \cup UnionOf(a.sfreed) \cup UnionOf(a.unp_freed)
 
 \* C06: every allocated page has exactly one owner, every other page is free
+\* (needs_repair: a write transaction was dropped while a panic unwound through it - its rollback is skipped and its
+\* pages stay allocated, owned by nothing, until the database is reopened; the latch forbids recording a clean shutdown
+\* or an allocator snapshot meanwhile.  Only then may the allocator hold more than the owners.)
 Owner1(a) ==
-  /\ SetOf(a.alloc) = Owners(a)
+  /\ IF "needs_repair" \in DOMAIN a /\ a.needs_repair THEN Owners(a) \subseteq SetOf(a.alloc) ELSE SetOf(a.alloc) = Owners(a)
   /\ Len(a.data) + Len(a.sys) + SumLens(a.dfreed, 1) + SumLens(a.sfreed, 1) + SumLens(a.unp_freed, 1)
        = Cardinality(Owners(a))
 
